@@ -7,4 +7,4 @@ From SqlModel Require Import Base Re Lexer.
 From SqlModel.Inst Require Import Cur.
 
 Extraction Language OCaml.
-Extraction "sqlmodel.ml" cur_lex cur_rmatch cur_process cur_split_stream.
+Extraction "sqlmodel.ml" cur_lex cur_rmatch cur_process cur_split_stream cur_parse_upto cur_parse.
